@@ -10,7 +10,6 @@
 import Ark.Proofs.Lock
 import Ark.Proofs.Rejects
 import Ark.Generated.FactsLock
-import Ark.Proofs.GenBridge.BookPool
 
 namespace Ark.Props.C07
 open Ark Ark.Lock
@@ -257,15 +256,5 @@ theorem registerComponent_locked : type_of% @Ark.World.registerComponent_locked 
 theorem lock_checked_first_in_source :
     (Ark.Generated.lockFirst.all (·.2) && Ark.Generated.newBatchLockFirst.all (·.2)) = true ∧
     Ark.Generated.lockFirst.length = 15 ∧ Ark.Generated.newBatchLockFirst.length = 13 := by decide
-
-
-/-! ### The code itself: `bitPool` of pool.go (the lock bits), translated statement by statement on every run -/
-
-/-- `bitPool.Get`/`getNew` as in the source = the model's `BitPool.get` (panic at 64 bits) -/
-theorem src_bitPool_get : type_of% @Ark.GenBridge.Book.bitPool_get_eq := @Ark.GenBridge.Book.bitPool_get_eq
-/-- `bitPool.Recycle` as in the source = the model's -/
-theorem src_bitPool_recycle : type_of% @Ark.GenBridge.Book.bitPool_recycle_eq := @Ark.GenBridge.Book.bitPool_recycle_eq
-/-- `bitPool.Reset` as in the source = the model's (all three counters cleared) -/
-theorem src_bitPool_reset : type_of% @Ark.GenBridge.Book.bitPool_reset_eq := @Ark.GenBridge.Book.bitPool_reset_eq
 
 end Ark.Props.C07
